@@ -19,7 +19,7 @@ REQUIRED = [f"prefix_checked:{nn.label({'test': a, 'estim': b, 'bet': c})}" for 
            ["truncate_checked", "estim_checked", "bet_checked", "k_is_1", "k_is_n_minus_1", "truncation_lowered_kth"]
 ASSUMPTIONS = ["numpy's cumulative kernels are sequential, so prefix-stability is checked with bit equality",
                "both samples continue beyond the cut (the property's own hypothesis)"]
-N_CASES = {"quick": 48000, "thorough": 1500000}
+N_CASES = {"quick": 160000, "thorough": 1500000}
 
 
 def plan(tier, seed):
@@ -95,9 +95,12 @@ def run_case(case, rec):
         elif hc[k - 1] < h[k - 1]:
             rec.count("truncation_lowered_kth")
             N = nn.cfgN(cfg)
-            if not (math.isfinite(N) and sum(x[:k]) > N * cfg["t"]):
+            # the total in the arithmetic the code itself uses (sequential float addition; Python's built-in sum() is
+            # compensated since 3.12 and can differ by an ulp on non-dyadic data)
+            tot = float(np.cumsum(np.array(x[:k], dtype=float))[-1])
+            if not (math.isfinite(N) and tot > N * cfg["t"]):
                 rec.violation("c05.truncate", f"{lab}:kth_lowered_without_total_exceeding",
-                              {"k": k, "h_cut_k": hc[k - 1], "h_x_k": h[k - 1], "sum": sum(x[:k])})
+                              {"k": k, "h_cut_k": hc[k - 1], "h_x_k": h[k - 1], "sum": tot, "N_t": N * cfg["t"]})
         # estimator / bet: entry j unaffected by any change at positions >= j
         for which in ("estim", "bet"):
             name = cfg.get(which)
